@@ -1,0 +1,35 @@
+//go:build verif
+
+// Round 5, area H: Decorate (the function that builds a router entry from a handler and its decorators), checked by nsqvc.
+// Comment-only file. Used by the route-table contract of nsqadmin.NewHTTPServer (C17).
+
+package http_api
+
+// A Decorator (V1, PlainText, the closure returned by Log) only wraps the handler it is given: building the wrapper has no effect on
+// any modelled state and yields a handler. ASSUMED at the dynamic calls `decorate(decorated)` in Decorate for every value of the type
+// (what the wrappers DO when a request arrives is verified: V1$1, PlainText$1, Log$1$1).
+//@ extern functype:github.com/nsqio/nsq/internal/http_api.Decorator(f) (g)
+//@   ensures[a-handler] g != nil
+//@   modifies
+
+// Decorate(f, ds...): no effect on modelled state; the entry it returns runs the decorated f (Decorate$1: exactly once). WHICH handler was
+// decorated is recorded for the caller's route table: r5HDecorated = fnname(f) (the ssa name of the function / bound method the value
+// denotes where Decorate is called), r5HDecoratedEntry = the router entry returned, r5HDecoratedBy = number of decorators,
+// r5HDecorations = number of calls.
+//@ ghost r5HDecorations int
+//@ ghost r5HDecorated string
+//@ ghost r5HDecoratedEntry httprouter.Handle
+//@ ghost r5HDecoratedBy int
+//@ ghostgroup r5HDecorations, r5HDecorated, r5HDecoratedEntry, r5HDecoratedBy
+//@ func Decorate(f APIHandler, ds ...Decorator) httprouter.Handle
+//@   props C17 C18
+//@   nochan
+//@   ensures[an-entry] result != nil
+//@   modifies r5HDecorations
+//@   onreturn r5HDecorations := r5HDecorations + 1
+//@   onreturn r5HDecorated := fnname(f)
+//@   onreturn r5HDecoratedEntry := result
+//@   onreturn r5HDecoratedBy := len(ds)
+
+// (integration) Serve, GETV1, POSTV1 and httpsEndpoint: this author's contracts were duplicates of zz_contracts_r5main_verif.go (Serve) and of the
+// complete client contracts of zz_contracts_r5J_verif.go; those are kept (their clauses [no-deadlines] resp. the body/decoding clauses catch the same changes).
